@@ -366,6 +366,12 @@ w64_read_header	(SF_PRIVATE *psf, int *blockalign, int *framesperblock)
 		if (psf_ftell (psf) >= (psf->filelength - (2 * SIGNED_SIZEOF (dword))))
 			break ;
 
+		if (chunk_size > 0 && chunk_size < 24)
+		{	/* The size includes the 24 byte chunk header : skipping 'size - 24' would step backwards. */
+			psf_log_printf (psf, "*** Chunk size %D is smaller than the chunk header. Exiting parser.\n", chunk_size) ;
+			break ;
+			} ;
+
 		if (chunk_size > 0 && chunk_size < 0xffff0000)
 		{	dword = chunk_size ;
 			psf_binheader_readf (psf, "j", dword - 24) ;
